@@ -3,14 +3,21 @@ from core import (strip_site, fmt, bool_branch, mentions, subexprs, is_call_to, 
                   site_effects, dashmap_call, variant_edges, bool_branches, const_of)
 
 LEVEL = "other"
-EXPLANATION = ("Three structural necessary conditions of panic-freedom: (R17.1/R17.5) every assert!-style precondition "
+EXPLANATION = ("Structural necessary conditions of panic-freedom: (R17.1/R17.5) every assert!-style precondition "
                "tests only values derived from the call's own arguments, the configuration or the user's callbacks - "
                "never internal cache state, which a valid caller cannot control; (R17.2) panicking time arithmetic "
                "(SystemTime + Duration) is never applied to a caller-chosen duration without a checked form; "
                "(R17.3/R17.4) no unwrap/expect of a lookup into shared state without a dominating presence test, and "
-               "no direct unwrap/expect/panic in the loop of a background thread. Overflow and bounds assertions in "
-               "general (e.g. counters = 1 giving empty sketch rows), allocation failure and misbehaving user clocks "
-               "are not decided.")
+               "no direct unwrap/expect/panic in the loop of a background thread; an assert on a value that depends on "
+               "internal state is discharged only by a positive lower bound that is sound under overflow (no bound through a "
+               "plain `+` on a value without an upper bound); (R17.6-R17.14) zero-size std calls, unsigned subtraction on "
+               "background threads, background loops that end only on disconnect, builder setters that assert like their "
+               "siblings, gen_range bounds, no lock cycle through background threads, stop flags that start running; "
+               "(R17.10/R17.15/R17.16) every sketch position has a byte: rows hold modulus/2 bytes, positions are taken "
+               "modulo the modulus, the modulus is at least 2 for every size the builder accepts (interval lower bound "
+               "traced to the builder's assert) and even (the bit-smearing chain covers the word; other spellings of the "
+               "rounding are recorded as not judged). Arithmetic overflow in general, other index bounds, allocation "
+               "failure and misbehaving user clocks are not decided.")
 ASSUMPTIONS = ["arguments satisfy the documented preconditions", "user callbacks (weight fn, hash fn, clock) do not panic"]
 
 SHARED_LOOKUPS = ("dashmap::DashMap::<K, V, S>::get", "dashmap::DashMap::<K, V, S>::get_mut", "dashmap::DashMap::<K, V, S>::remove",
